@@ -11,8 +11,10 @@
      so every character is taken at most once by construction of the recursion;
      only the outer mpt_parse_config loop runs on explicit fuel ([ROutOfFuel]);
    * [path] is abstracted to (elements, post bytes, first : 8 bit, KeepPost,
-     buffer present); separator '.' / assign 0 as MPT_PATH_INIT; element bytes can
-     never contain '.', mpt_path_add refuses that;
+     buffer present, SepBinary); separator '.' / assign 0 as MPT_PATH_INIT; without
+     SepBinary element bytes can never contain '.', mpt_path_add refuses that; with
+     SepBinary (a path of the caller, examples/core/parse.c) it refuses elements above
+     255 bytes instead; the length bytes of that format are below the abstraction;
    * reads of the post area beyond its end give [RFault];
    * allocation failures are not modelled. *)
 From Coq Require Import List ZArith Bool.
@@ -183,25 +185,30 @@ Fixpoint ncheck_go (cs : list Z) (fst : bool) (take : Z) : Z :=
 (* ---------------------------------------------------------------- path *)
 (* The post bytes are kept in REVERSE order together with their count, so that
    adding a character and asking for the post length are constant time as in C. *)
-Record path := mkPath {
+Record path := mkPathB {
   pelems : list (list Z);   (* finished elements *)
   rpost : list Z;           (* post data (bytes behind off+len up to _used), last byte first *)
   plen : Z;                 (* number of post bytes *)
   pfirst : Z;               (* uint8_t first: length of the first element, 0 when it does not fit *)
   pkeep : bool;             (* MPT_PATHFLAG(KeepPost) *)
-  pbuf : bool }.            (* base != NULL (and HasArray) *)
+  pbuf : bool;              (* base != NULL (and HasArray) *)
+  pbin : bool }.            (* MPT_PATHFLAG(SepBinary): set by the owner of the path, never changed by the library *)
+(* a path without SepBinary (MPT_PATH_INIT, the path of mpt_parse_config) *)
+Notation mkPath a b c d e f := (mkPathB a b c d e f false).
 Definition ppost (p : path) : list Z := rev_append (rpost p) [].   (* = rev (rpost p), linear time *)
 Definition path_init := mkPath [] [] 0 0 false false.
+(* the path of a caller that selects the binary element separation (examples/core/parse.c) *)
+Definition path_init_b (bin : bool) := mkPathB [] [] 0 0 false false bin.
 Definition SEP : Z := 46.
 
 Definition byte_of (v : Z) : Z := v mod 256.
 
 Definition path_addchar (p : path) (v : Z) : path :=
-  if negb (pbuf p) then mkPath (pelems p) [byte_of v] 1 (pfirst p) (pkeep p) true
+  if negb (pbuf p) then mkPathB (pelems p) [byte_of v] 1 (pfirst p) (pkeep p) true (pbin p)
   else match rpost p with
-       | [] => mkPath (pelems p) [byte_of v] 1 (pfirst p) (pkeep p) true
-       | x :: r => if pkeep p then mkPath (pelems p) (byte_of v :: x :: r) (plen p + 1) (pfirst p) true true
-                   else mkPath (pelems p) (byte_of v :: r) (plen p) (pfirst p) false true
+       | [] => mkPathB (pelems p) [byte_of v] 1 (pfirst p) (pkeep p) true (pbin p)
+       | x :: r => if pkeep p then mkPathB (pelems p) (byte_of v :: x :: r) (plen p + 1) (pfirst p) true true (pbin p)
+                   else mkPathB (pelems p) (byte_of v :: r) (plen p) (pfirst p) false true (pbin p)
        end.
 
 (* the return value is ignored by the parser; an empty post area is left alone *)
@@ -209,36 +216,47 @@ Definition path_delchar (p : path) : path :=
   if negb (pbuf p) then p
   else match rpost p with
        | [] => p
-       | _ :: r => mkPath (pelems p) r (plen p - 1) (pfirst p) (pkeep p) true
+       | _ :: r => mkPathB (pelems p) r (plen p - 1) (pfirst p) (pkeep p) true (pbin p)
        end.
 
 Definition path_valid (p : path) : Z * path :=
   if negb (pbuf p) then (0, p)
   else match rpost p with
        | [] => (0, p)
-       | _ => (plen p, mkPath (pelems p) (rpost p) (plen p) (pfirst p) true true)
+       | _ => (plen p, mkPathB (pelems p) (rpost p) (plen p) (pfirst p) true true (pbin p))
        end.
 
-(* mpt_path_add: (code, path) *)
+(* mpt_path_add: (code, path).
+   Separator format: the element must not hold the separator; one byte behind it becomes the assign character.
+   Binary format (SepBinary): the element must fit a length byte (add <= UINT8_MAX); TWO bytes behind it become
+   the length byte of the element and the length byte of the next one (0); `first` is the length itself. *)
 Definition path_add (p : path) (n : Z) : Z * path :=
   if negb (pbuf p) then (MissingBuffer, p)
   else if (n <? 0) || (plen p <? n) then (BadValue, p)
   else let e := firstn (Z.to_nat n) (ppost p) in
+    if pbin p then
+      if 255 <? n then (BadValue, p)
+      else (0, mkPathB (pelems p ++ [e]) (rev_append (skipn (S (S (Z.to_nat n))) (ppost p)) [])
+                       (if plen p <=? n + 1 then 0 else plen p - n - 2)
+                       (match pelems p with [] => n | _ => pfirst p end) false true true)
+    else
     if existsb (Z.eqb SEP) e then (BadValue, p)
-    else (0, mkPath (pelems p ++ [e]) (rev_append (skipn (S (Z.to_nat n)) (ppost p)) [])
+    else (0, mkPathB (pelems p ++ [e]) (rev_append (skipn (S (Z.to_nat n)) (ppost p)) [])
                     (if plen p <=? n then 0 else plen p - n - 1)
-                    (match pelems p with [] => if 255 <? n then 0 else n | _ => pfirst p end) false true).
+                    (match pelems p with [] => if 255 <? n then 0 else n | _ => pfirst p end) false true (pbin p)).
 
+(* mpt_path_del; in the binary format the length of the last element is read from its length byte and compared
+   with the length byte in front of it (the abstraction keeps the elements, so both are the length of the element) *)
 Definition path_del (p : path) : Z * path :=
   match pelems p with
   | [] => (MissingData, p)
   | _ => let es := removelast (pelems p) in
          (Z.of_nat (length (last (pelems p) [])),
-          mkPath es [] 0 (match es with [] => 0 | _ => pfirst p end) false (pbuf p))
+          mkPathB es [] 0 (match es with [] => 0 | _ => pfirst p end) false (pbuf p) (pbin p))
   end.
 
 Definition path_invalidate (p : path) : path :=
-  if negb (pbuf p) then p else mkPath (pelems p) [] 0 (pfirst p) false true.
+  if negb (pbuf p) then p else mkPathB (pelems p) [] 0 (pfirst p) false true (pbin p).
 
 (* ---------------------------------------------------------------- parser state *)
 Record pst := mkPst {
@@ -604,11 +622,16 @@ Arguments c_prev {H}. Arguments c_h {H}. Arguments config_loop {H}.
 Definition config_fuel (l : list Z) : nat := 2 * length l + 4.
 
 Definition pst_init : pst := mkPst 1 0 path_init 0 0.
+(* start state of a caller loop on a path with / without SepBinary *)
+Definition pst_init_b (bin : bool) : pst := mkPst 1 0 (path_init_b bin) 0 0.
 
 (* mpt_parse_config with a handler that records the events *)
 Definition save_log (h : list event) (e : event) : option (list event + unit) := Some (inl (h ++ [e])).
 Definition parse_events (fam : family) (f : format) (a : allow) (l : list Z) : cres (list event) :=
   config_loop save_log (config_fuel l) fam f a PSection l pst_init [].
+(* the same loop written by the caller on its own path (examples/core/parse.c: SepBinary) *)
+Definition parse_events_b (bin : bool) (fam : family) (f : format) (a : allow) (l : list Z) : cres (list event) :=
+  config_loop save_log (config_fuel l) fam f a PSection l (pst_init_b bin) [].
 
 (* ---------------------------------------------------------------- nodes *)
 (* a node: identifier bytes ([] = no identifier), value (None = no metatype), children *)
